@@ -13,6 +13,16 @@ Correspondence streams (real code vs the Lean driver executing those very defini
   search.real       real gridsearch with real fits (LinearGAM unknown/known scale, PoissonGAM with exposure, LogisticGAM,
                     GammaGAM): candidates, skipped ones, winner, self afterwards vs model `gridsearch`;
                     oracle: independent cold fits of the Cartesian product computed with itertools.
+  search.optimiser  the same pipeline over the settings that steer the optimiser: max_iter 1..200 and tol 1e-12..1e-3 on the
+                    model and as grid dimensions (alone, with lam, jointly), all class kinds, fitted / unfitted start, grid as
+                    given and with every axis reversed.  Oracle: score AND coefficients of every candidate equal those of an
+                    independent cold fit with the same max_iter / tol -- also when neither converges (then the candidate can
+                    only be `max_iter iterations from the cold initial estimate`: flat tolerance); two converged fits are
+                    compared with a tolerance that follows tol (`score_rtol`, `coef_rtol`).  The one combination the unchanged
+                    tree does not honour (a warm-started candidate converges within max_iter, the independent cold fit with
+                    the same max_iter / tol does not, and their scores or coefficients differ beyond the flat tolerance) is the
+                    known finding C10-warm-start-converges-cold-does-not: a fixed reproduction runs in every run, random
+                    occurrences carry the same key.  No other combination carries it.
 
 Oracle (real code only): the property text, see `_oracle_*`.
 """
@@ -72,6 +82,14 @@ KNOWN = {
         'C10-plural-setter-attributeerror',
         "LinearGAM(s(0) + l(1)).gridsearch(X, y, n_splines=[5, 7]) raises AttributeError: 'LinearTerm' object has no attribute 'n_splines'",
         'gridsearch fits the requested candidates (or skips / rejects them with ValueError)'),
+    'warm start converges': (
+        'C10-warm-start-converges-cold-does-not',
+        "rs = np.random.RandomState(0); X = rs.rand(200, 2); eta = 2*np.sin(3*X[:,0]) + 4*(X[:,1]-.5)**2 - 1; "
+        "y = (rs.rand(200) < 1/(1+np.exp(-eta))).astype(float); "
+        "mk = lambda lam: LogisticGAM(s(0, n_splines=8) + s(1, n_splines=8), lam=lam, max_iter=2, tol=1e-2); "
+        "mk(0.6).gridsearch(X, y, lam=[1.0, 1.0, 1.0], return_scores=True, progress=False) scores the three identical candidates "
+        "1.28289, 1.27866, 1.27865; mk(1.0).fit(X, y).statistics_['UBRE'] = 1.28289 (prints `did not converge`)",
+        "each candidate's score equals the objective of an independently fitted model with those hyper-parameters (incl. max_iter, tol)"),
 }
 
 
@@ -275,6 +293,13 @@ def build_model(pygam, spec, over=None, scripted_cls=None):
 
 
 def make_data(spec):
+    if spec.get('data_kind') == 'warm-start-repro':
+        # the fixed reproduction of the known finding C10-warm-start-converges-cold-does-not (see KNOWN)
+        rs = np.random.RandomState(0)
+        X = rs.rand(200, 2)
+        eta = 2 * np.sin(3 * X[:, 0]) + 4 * (X[:, 1] - .5) ** 2 - 1
+        y = (rs.rand(200) < 1 / (1 + np.exp(-eta))).astype(float)
+        return X, y, None, None
     rs = np.random.RandomState(spec['data_seed'])
     n, d = spec['n'], spec['d']
     X = rs.rand(n, d)
@@ -431,8 +456,9 @@ def compare_with_cold(score, m, c):
     """one candidate fitted inside a search (model `m`, recorded `score`) against the independent cold fit `c` with the same
     hyper-parameters (same max_iter / tol): score and coefficients, whether or not either of them converged"""
     ci = converged(m)
-    thr_s = score_rtol(c['tol'], ci) * FAIL_MARGIN
-    thr_c = coef_rtol(c['tol'], ci) * FAIL_MARGIN
+    both = ci and bool(c['conv'])      # only two converged fits may differ by their routes (tolerance follows tol)
+    thr_s = score_rtol(c['tol'], both) * FAIL_MARGIN
+    thr_c = coef_rtol(c['tol'], both) * FAIL_MARGIN
     try:
         score = float(score)
     except Exception:      # noqa
@@ -681,8 +707,13 @@ def run_real_case(spec):
                             tol=c['tol'], grid_order=where)
                 if cm['ci'] and not cm['cc']:
                     # unchanged tree: a warm-started candidate that converges within max_iter is kept, although an independent
-                    # fit (cold start, same max_iter) does not get there: reported as a suspected defect, not as a failing input
+                    # fit (cold start, same max_iter / tol) does not get there: known finding, recognised by exactly this pattern
                     res['warm_only'].append(info)
+                    if not any(t.startswith('warm start converges') for t in res['suspected']):
+                        res['suspected'].append('warm start converges: the candidate %s converged within max_iter from the previous '
+                                                "candidate's coefficients, the independent cold fit with the same max_iter / tol did not; "
+                                                'score %r vs %r (rel %.3g), coefficients rel %.3g, grid %s'
+                                                % (json.dumps(key), info['in_search'], c['score'], cm['err_s'], cm['err_c'], where))
                     continue
                 orc.append(dict(info, kind='candidate score differs from an independent cold fit' if not cm['ok_s']
                                 else 'candidate coefficients differ from an independent cold fit'))
@@ -709,15 +740,22 @@ def run_real_case(spec):
                     orc.append(dict(kind='the reversed grid raised where the given one did not', got=type(ex).__name__, msg=str(ex)[:200]))
                 else:
                     pairs3 = []
-                    if out3 is not g3:
-                        for m3, sc3 in out3.items():
-                            if m3 is g3:
-                                continue
-                            k3 = key_json(read_key(m3, params, slots))
-                            if json.dumps(k3) not in unstable:
-                                pairs3.append((m3, sc3, k3))
+                    readable = True
+                    try:
+                        if out3 is not g3:
+                            for m3, sc3 in out3.items():
+                                if m3 is g3:
+                                    continue
+                                k3 = key_json(read_key(m3, params, slots))
+                                if json.dumps(k3) not in unstable:
+                                    pairs3.append((m3, sc3, k3))
+                    except Exception as ex:      # noqa
+                        readable = False
+                        orc.append(dict(kind='the reversed grid returned something that is not a dict of fitted models', got=type(ex).__name__))
                     keys3 = sorted(json.dumps(k3) for _, _, k3 in pairs3)
-                    if keys3 != gotkeys:
+                    if not readable:
+                        pass
+                    elif keys3 != gotkeys:
                         orc.append(dict(kind='the grid order changes the set of fitted candidates',
                                         missing=[k for k in gotkeys if k not in keys3][:5], unexpected=[k for k in keys3 if k not in gotkeys][:5]))
                     else:
@@ -1186,6 +1224,12 @@ def gen_opt_specs(ctx, lits):
 
     def two_terms(ns=7):
         return [dict(kind='s', feature=0, n_splines=ns, spline_order=3, lam=0.6), dict(kind='s', feature=1, n_splines=ns, spline_order=3, lam=0.6)]
+    # known finding C10-warm-start-converges-cold-does-not: its fixed reproduction, in every run
+    specs.append(dict(cls='LogisticGAM', scale=None, terms=[dict(kind='s', feature=0, n_splines=8, spline_order=3, lam=0.6),
+                                                           dict(kind='s', feature=1, n_splines=8, spline_order=3, lam=0.6)],
+                      n=200, d=2, data_seed=0, data_kind='warm-start-repro', fitted=False, keep_best=True, return_scores=True, objective='auto',
+                      grids=[dict(param='lam', desc=dict(kind='1d', values=[1.0, 1.0, 1.0], container='list'))],
+                      weights=False, exposure=False, tol=1e-2, max_iter=2, reverse=False, known_repro=True))
     # full product first: class x small budget x fitted (grid over lam only; then budget / tolerance as grid dimensions)
     k = 0
     for cls in OPT_CLASSES:
@@ -1365,14 +1409,6 @@ def judge_real(ctx, stream, spec, res, prep, sout):
         ctx.count(stream + ' model tol', spec.get('tol'))
     for k, v in (res.get('cmp_classes') or {}).items():
         ctx.count(stream + ' candidate vs independent fit (in-search/cold)', k, v)
-    for wo in (res.get('warm_only') or []):
-        # see the final report: on the unchanged tree a warm-started candidate that converges within max_iter is kept although
-        # the independent cold fit with the same max_iter does not converge, and their scores differ
-        ctx.count('suspected-defect', 'warm-started candidate converged within max_iter, independent cold fit did not: score / coefficients differ')
-        ex = ctx.extra.setdefault('suspected_defect_examples', [])
-        if len(ex) < 5:
-            ex.append(dict(cls=spec['cls'], max_iter=spec.get('max_iter'), tol=spec.get('tol'), fitted=spec['fitted'], grids=spec['grids'],
-                           data_seed=spec['data_seed'], n=spec['n'], terms=spec['terms'], detail=wo))
     ctx.count(stream + ' class', spec['cls'])
     ctx.count(stream + ' objective', str(spec['objective']))
     ctx.count(stream + ' outcome', res['exc'] or 'ok')
@@ -1399,7 +1435,7 @@ def judge_real(ctx, stream, spec, res, prep, sout):
     fresh_tags = []
     for t in tags:
         kid = KNOWN[t.split(':')[0]][0]
-        if seen.get(kid, 0) >= 3:
+        if seen.get(kid, 0) >= 3 and not spec.get('known_repro'):
             ctx.count('known finding', kid)
         else:
             fresh_tags.append(t)
@@ -1415,7 +1451,10 @@ def judge_real(ctx, stream, spec, res, prep, sout):
                 continue
             ctx.count('known finding', kid)
             seen[kid] = seen.get(kid, 0) + 1
-            ctx.fail(stream, dict(known=kid, cls=spec['cls'], shapes=shape_sig(spec), fitted=spec['fitted']),
+            ksig = dict(known=kid, cls=spec['cls'], shapes=shape_sig(spec), fitted=spec['fitted'])
+            if head == 'warm start converges':
+                ksig.update(max_iter=spec.get('max_iter'), tol=spec.get('tol'), fixed_reproduction=bool(spec.get('known_repro')))
+            ctx.fail(stream, ksig,
                      dict(spec=spec, how='harness.props.c10.run_real_case(spec)', minimal_reproduction=repro),
                      observed=dict(what=t, exc=res.get('exc'), msg=res.get('msg')), expected=expected,
                      oracle='independent cold fits of the itertools product of the grids (tol 1e-8); coefficient counts; '
@@ -1846,11 +1885,20 @@ def run(ctx):
     ctx.extra['rule'] = ('combine: random grid lists incl. empty grids; scripted: random model (1-3 terms s/te/l/f) x grid shapes '
                          '(1-D list/tuple/array, 2-D array, nested list/tuple/arrays, mixed, rejected shapes, unknown names, default) x '
                          'objective x fitted x keep_best x return_scores x score script (ties / skips / inf / nan); real: the same with '
-                         'real fits over 5 class kinds; distinct = distinct (stream, configuration signature); trivial = default grid, '
+                         'real fits over 5 class kinds; optimiser: class kind x max_iter (1, 2, 3 ... 200) x tol x fitted, max_iter / tol '
+                         'also as grid dimensions, grid as given and reversed, every candidate vs an independent cold fit with the '
+                         'same settings (score and coefficients, converged or not); '
+                         'distinct = distinct (stream, configuration signature); trivial = default grid, '
                          "objective auto, unfitted, keep_best (the library's own defaults)")
     ctx.partial.append('score_independent_partial: "each candidate\'s score equals the objective of an independently fitted model" is a '
                        'statement about fit (C01), checked against cold fits on the real code, proved in the model only as '
                        '"a recorded score is the candidate\'s own fit outcome"')
+    ctx.partial.append('score_independent / known finding C10-warm-start-converges-cold-does-not: recorded as known is exactly the pattern '
+                       '"the candidate converged (last diff < tol) inside the search from the previous model\'s coefficients, the '
+                       'independent cold fit with identical hyper-parameters incl. max_iter / tol did not converge, and score or '
+                       'coefficients differ beyond the flat tolerance (1e-6 / 1e-5, x10 margin)"; a fixed reproduction runs in every run, '
+                       'the first three occurrences are reported, the others counted.  Every other combination (both converged, neither '
+                       'converged, cold converged but candidate not, non-finite values in the candidate) is a failing input when it differs')
     ctx.assumptions.append('fit outcomes are parameters of the search model (ValueError or (content, score)); IEEE comparison of scores '
                            '(nan, inf) is executed with Lean Float in the driver, the theorems are over a linear order')
     run_combine(ctx, pygam, lits)
